@@ -140,4 +140,17 @@ PROPS = {
         trusted_base=["encoding/json.Decoder on a single clean read is the oracle (in-process)"],
         assumptions=["the scripted reader repeats its terminal condition once the script is over (as io.Reader implementations do)"],
     ),
+    "C17": dict(
+        lean_modules=["Enc.Props.C17"],
+        variants=V_DEFAULT, areas=["json.Tokenizer", "json.stack", "json.acquireStack", "json.releaseStack", "json.RawValue", "json.decoder_parse"],
+        allowed_native=["Enc.Lemmas.Json"],
+        main_theorem="Enc.Props.C17 (token stream = grammar-directed specification)",
+        rule="grammar-directed documents (empty containers inside non-empty ones, keys after nested objects, depth <= 12, "
+             "white-space variants) + one-edit mutations + arbitrary byte strings over the JSON alphabet: full token stream "
+             "(delim, value span, depth, index, IsKey, Remaining) vs the Lean model; for valid documents vs the Lean "
+             "grammar-directed specification and, in-process, vs encoding/json's Decoder.Token stream (positions, decoded "
+             "String/Int/Uint/Float/Bool/Kind), concatenation = Compact(doc), Reset after abandonment with a dirty pooled stack",
+        trusted_base=["encoding/json token stream as in-process oracle for decoded values"],
+        assumptions=[],
+    ),
 }
